@@ -113,7 +113,8 @@ FASTOR_INLINE void reverse() {
     V vec;
     FASTOR_INDEX i = 0;
     for (; i< ROUND_DOWN(size(),V::Size); i+=V::Size) {
-        vec.load(&tmp[size() - i - V::Size], is_aligned());
+        // size() - i - V::Size is a multiple of V::Size only when size() is: this load is not aligned in general
+        vec.load(&tmp[size() - i - V::Size], false);
         vec.reverse().store(&_data[i], is_aligned());
     }
     for (; i< size(); ++i) {
